@@ -262,11 +262,102 @@ fn wide_mixer(seed: u64, n: usize) -> Result<(Events, bool), String> {
     Ok((ev, r1 == r2))
 }
 
+/// outer node type of the nested-width scenario: a typed enum, so that the nested graph stays inspectable after processing
+enum ONode {
+    Src(u64),
+    Nested(GraphNode<G, BoxedNode>),
+    Mix,
+}
+impl Node for ONode {
+    fn process(&mut self, inputs: &[Input], output: &mut [Buffer]) {
+        match self {
+            ONode::Src(s) => {
+                for b in output.iter_mut() {
+                    for x in b.iter_mut() {
+                        *x = (xs(s) % 201) as f32 / 100.0 - 1.0;
+                    }
+                }
+            }
+            ONode::Nested(g) => g.process(inputs, output),
+            ONode::Mix => Sum.process(inputs, output),
+        }
+    }
+}
+
+/// a nested graph whose designated input nodes own another number of buffers than the outer nodes feeding them: the nodes'
+/// buffer vectors are the user's storage and keep the length and capacity they were built with (checked by value, from the
+/// very first call on), and the steady state allocates nothing
+fn nested_widths(seed: u64, n: usize) -> Result<(Events, bool), String> {
+    let calls = 3 + n / 64;
+    let widths: Vec<(usize, usize)> = (0..3).map(|k| (1 + ((seed as usize / 3 + k) % 3), 1 + ((seed as usize + 2 * k) % 3))).collect();
+    let run = |armed: bool| -> Result<(u64, Events), String> {
+        let mut inner: G = Graph::with_capacity(0, 0);
+        let out_i = inner.add_node(NodeData::new(BoxedNode::new(Sum), vec![Buffer::SILENT; 2]));
+        let mut ins = Vec::new();
+        for &(_, wi) in &widths {
+            let mut v = Vec::with_capacity(wi);
+            v.resize(wi, Buffer::SILENT);
+            let i = inner.add_node(NodeData::new(BoxedNode::new(Pass), v));
+            inner.add_edge(i, out_i, ());
+            ins.push(i);
+        }
+        let built: Vec<(usize, usize)> = ins.iter().map(|&i| (inner[i].buffers.len(), inner[i].buffers.capacity())).collect();
+        let gn = GraphNode { processor: Processor::with_capacity(0), graph: inner, input_nodes: ins.clone(), output_node: out_i, node_type: PhantomData::<BoxedNode> };
+        let mut g: Graph<NodeData<ONode>, ()> = Graph::with_capacity(0, 0);
+        let nested = g.add_node(NodeData::new(ONode::Nested(gn), vec![Buffer::SILENT; 2]));
+        for (k, &(wo, _)) in widths.iter().enumerate() {
+            let s = g.add_node(NodeData::new(ONode::Src(seed ^ (k as u64 * 77) | 1), vec![Buffer::SILENT; wo]));
+            g.add_edge(s, nested, ());
+        }
+        let out = g.add_node(NodeData::new(ONode::Mix, vec![Buffer::SILENT; 2]));
+        g.add_edge(nested, out, ());
+        let mut p = Processor::with_capacity(0);
+        let unchanged = |g: &Graph<NodeData<ONode>, ()>, when: &str| -> Result<(), String> {
+            if let ONode::Nested(gn) = &g[nested].node {
+                for (j, &i) in ins.iter().enumerate() {
+                    let now = (gn.graph[i].buffers.len(), gn.graph[i].buffers.capacity());
+                    if now != built[j] {
+                        return Err(format!(
+                            "graph: nested graph fed by nodes of other widths: input node {} of the nested graph was built with {} buffers (capacity {}), the outer nodes feeding the nested graph own {:?} buffers; {} it has {} buffers (capacity {}): user-supplied storage was resized",
+                            j, built[j].0, built[j].1, widths.iter().map(|w| w.0).collect::<Vec<_>>(), when, now.0, now.1
+                        ));
+                    }
+                }
+            }
+            Ok(())
+        };
+        p.process(&mut g, out);
+        unchanged(&g, "after the first process call")?;
+        let mut acc = 0u64;
+        let mut body = |g: &mut Graph<NodeData<ONode>, ()>, acc: &mut u64| {
+            for _ in 0..calls {
+                p.process(g, out);
+                for b in g[out].buffers.iter() {
+                    mixf(acc, b[0] as f64 + b[Buffer::LEN - 1] as f64);
+                }
+            }
+        };
+        let ev = if armed {
+            let (_, ev) = measure(|| body(&mut g, &mut acc));
+            ev
+        } else {
+            body(&mut g, &mut acc);
+            Events::default()
+        };
+        unchanged(&g, "after the run")?;
+        Ok((acc, ev))
+    };
+    let (r1, _) = run(false)?;
+    let (r2, ev) = run(true)?;
+    Ok((ev, r1 == r2))
+}
+
 pub fn scenarios() -> Vec<(&'static str, ScenarioFn)> {
     vec![
         ("graph: random graph of stock nodes and wrappers, one output node", graph_one_output as ScenarioFn),
         ("graph: alternating output nodes of one graph", graph_alternating as ScenarioFn),
         ("graph: StableGraph with a vacant slot and feedback through a delay", stable_graph as ScenarioFn),
         ("graph: wide mixer (260..1000 inputs into one node) and channel-count mismatches in both directions", wide_mixer as ScenarioFn),
+        ("graph: nested graph whose input nodes own other buffer counts than the nodes feeding them (storage keeps its length and capacity)", nested_widths as ScenarioFn),
     ]
 }
